@@ -123,6 +123,8 @@ Next == \/ Induce \/ Deal \/ Combine
 Spec == Init /\ [][Next]_vars
 \* the C05 configurations stop at the dealt states (the verification invariants are state predicates there)
 Dealing == Induce \/ Deal
+\* policy-level configurations stop after the induction
+Inducing == Induce
 
 \* ============================================================ C02 invariants
 \* exactly the qualified sets span the target
